@@ -29,7 +29,7 @@ Next == FALSE /\ c' = c
 Spec == Init /\ [][Next]_c
 
 \* what the marshalled text says, and what parsing it gives back
-SerSrc == [short |-> "canon", canon |-> "canon", other |-> "other", other2 |-> "other2"]       \* sources are emitted in full form
+SerSrc == [short |-> "canon", canon |-> "canon", suffixed |-> "suffixed", other |-> "other", other2 |-> "other2"]       \* sources are emitted in full form
 SerCfg == [null |-> "null", empty |-> "null", emptylist |-> "null", kv |-> "kv", kw |-> "kw", deep_v |-> "deep_v", deep_w |-> "deep_w",
            num1 |-> "num1", str1 |-> "str1", bfalse |-> "bfalse", zero |-> "zero", emptystr |-> "emptystr"]
 SerEnv(e) == IF DOMAIN e.m = {} THEN E(TRUE, <<>>) ELSE e                                    \* omitempty: nil and empty both vanish
